@@ -20,6 +20,7 @@ EXPLANATION = (
     "import_module, and the stream reader accepts a header only if it ENDS with the magic after reading exactly the header "
     "frame; (R11.5) the extension table names adapter modules that exist and define the Reader/Writer class the dispatcher "
     "looks up. NOT decided: that written files satisfy independent decompressors; record equality per access path."
+    " Rules added after the sixth blind round: (R11.6) seek() on the read path only under seekable(); (R11.7) memoised functions do not hand out sys.stdin/stdout/stderr, os.environ or a freshly opened file."
 )
 RULE_SUMMARY = "instances: codec rows, magic constants and their comparisons, read-path call chains, refusal sites, extension rows"
 
